@@ -4,6 +4,7 @@ import (
 	"context"
 	"encoding/base64"
 	"fmt"
+	"math"
 	"sort"
 	"strconv"
 	"strings"
@@ -296,6 +297,10 @@ func drawIDs(t *rapid.T, n int) []string {
 		} else {
 			id = rapid.StringMatching(`[aAb0é?>~o/_ÿ¿]{1,6}`).Draw(t, "id")
 		}
+		if rapid.IntRange(0, 11).Draw(t, "long") == 0 {
+			// long but perfectly valid ids (device paths, urns): a page token has to carry them
+			id += strings.Repeat(rapid.SampledFrom([]string{"x", "/seg", "é"}).Draw(t, "longPart"), rapid.SampledFrom([]int{24, 60, 95, 128, 300}).Draw(t, "longN"))
+		}
 		for seen[id] {
 			id += rapid.SampledFrom([]string{"a", "0", "A"}).Draw(t, "idext")
 		}
@@ -318,10 +323,10 @@ func drawCount(t *rapid.T, min int) int {
 
 func drawPageSize(t *rapid.T, n int) int32 {
 	if n > 200 {
-		return rapid.SampledFrom([]int32{0, 50, 333, 999, 1000, 1001, 5000}).Draw(t, "size")
+		return rapid.SampledFrom([]int32{0, 50, 333, 999, 1000, 1001, 5000, math.MaxInt32}).Draw(t, "size")
 	}
 	return rapid.OneOf(
-		rapid.SampledFrom([]int32{0, 1, 2, 3, 7, 50, 1000, 5000}),
+		rapid.SampledFrom([]int32{0, 1, 2, 3, 7, 50, 1000, 5000, math.MaxInt32}),
 		rapid.Int32Range(1, 70),
 	).Draw(t, "size")
 }
@@ -389,7 +394,7 @@ func TestPaging(t *testing.T) {
 		}
 		// a client is free to ask for a different page size on every request: the token alone carries the position
 		if len(want) > 1 && len(want) <= 200 && rapid.IntRange(0, 1).Draw(t, "varySizes") == 0 {
-			sizes := rapid.SliceOfN(rapid.SampledFrom([]int32{1, 2, 3, 7, 0, 50, 1000, 5000}), 2, 6).Draw(t, "sizes")
+			sizes := rapid.SliceOfN(rapid.SampledFrom([]int32{1, 2, 3, 7, 0, 50, 1000, 5000, math.MaxInt32, math.MaxInt32 - 1}), 2, 6).Draw(t, "sizes")
 			if n := len(want); rapid.Bool().Draw(t, "sizeAroundN") {
 				sizes = append(sizes, int32(n-1), int32(n), int32(n+1))
 			}
